@@ -73,6 +73,14 @@ func addGRPCModel(P *Program) {
 	h["crypto/x509.NewCertPool"] = func(i *interpreter, fr *frame, fn *ssa.Function, args []value) value {
 		return newHandle(&recPool{})
 	}
+	h["crypto/x509.SystemCertPool"] = func(i *interpreter, fr *frame, fn *ssa.Function, args []value) value {
+		// the host's trust store: whatever authorities it holds are accepted issuers
+		return tuple{newHandle(&recPool{pems: [][]byte{[]byte("<every authority in the host trust store>")}}), iface{}}
+	}
+	h["(*crypto/x509.CertPool).Clone"] = func(i *interpreter, fr *frame, fn *ssa.Function, args []value) value {
+		p := handleOf(args[0]).(*recPool)
+		return newHandle(&recPool{pems: append([][]byte(nil), p.pems...)})
+	}
 	h["(*crypto/x509.CertPool).AppendCertsFromPEM"] = func(i *interpreter, fr *frame, fn *ssa.Function, args []value) value {
 		p := handleOf(args[0]).(*recPool)
 		if i.fault("x509.AppendCertsFromPEM") {
